@@ -472,11 +472,20 @@ class ColorValue(Value):
                     # ORDER h l s !!!
                     r, g, b = colorsys.hls_to_rgb(h, l_, s)
                     # back to 255 based
-                    rgba = [
-                        int(round(r * 255)),
-                        int(round(g * 255)),
-                        int(round(b * 255)),
-                    ]
+                    try:
+                        rgba = [
+                            int(round(r * 255)),
+                            int(round(g * 255)),
+                            int(round(b * 255)),
+                        ]
+                    except (OverflowError, ValueError):
+                        # (saturation and lightness far out of range multiply
+                        # to infinity)
+                        self.wellformed = False
+                        self._log.error(
+                            'ColorValue has %s) parameters out of range.' % functiontype
+                        )
+                        return
 
                     if len(raw) > 3:
                         rgba.append(raw[3])
